@@ -105,6 +105,13 @@ func childBinary(race bool) (string, string) {
 	return filepath.Join(binDir, "c20child"), binErr
 }
 
+func headTail(b []byte, h, t int) string {
+	if len(b) <= h+t {
+		return string(b)
+	}
+	return string(b[:h]) + "\n[...]\n" + string(b[len(b)-t:])
+}
+
 func tail(b []byte, n int) string {
 	if len(b) > n {
 		b = b[len(b)-n:]
@@ -159,7 +166,7 @@ func runChild(c *engine.Case) (o outcome) {
 		return
 	}
 	// no verdict from the child: it died
-	errTxt := tail(stderr.Bytes(), 3000)
+	errTxt := headTail(stderr.Bytes(), 2500, 500) // the fault and the faulting goroutine come first
 	switch {
 	case ctx.Err() != nil:
 		o.inconclusive = "child hit the safety timeout"
@@ -232,6 +239,17 @@ func classTable(t testing.TB) *table {
 // ---------------------------------------------------------------------------------------------
 // generators
 
+// uni draws lo..hi uniformly.  rapid's own integer generators favour small magnitudes (good for sizes
+// and shrinking, bad for "how many pages" and "which percentage"); the draw is still a pure function
+// of rapid's bit stream.
+func uni(t *rapid.T, label string, lo, hi int) int {
+	x := rapid.Uint64().Draw(t, label) + 0x9e3779b97f4a7c15
+	x = (x ^ x>>30) * 0xbf58476d1ce4e5b9
+	x = (x ^ x>>27) * 0x94d049bb133111eb
+	x ^= x >> 31
+	return lo + int(x%uint64(hi-lo+1))
+}
+
 func genSize(t *rapid.T, tb *table, hot []int) int {
 	if len(hot) > 0 && rapid.IntRange(0, 99).Draw(t, "usehot") < 60 {
 		return hot[rapid.IntRange(0, len(hot)-1).Draw(t, "hot")]
@@ -275,13 +293,13 @@ func genOp(t *rapid.T, tb *table, hot []int, conc bool) engine.Op {
 	case k < 50:
 		return engine.Op{K: "r"}
 	case k < 82:
-		return engine.Op{K: "f", A: rapid.IntRange(0, 1<<20).Draw(t, "idx")}
+		return engine.Op{K: "f", A: uni(t, "idx", 0, 1<<20)}
 	case k < 92:
-		return engine.Op{K: "w", A: rapid.IntRange(0, 1<<20).Draw(t, "idx")}
+		return engine.Op{K: "w", A: uni(t, "idx", 0, 1<<20)}
 	case k < 95:
 		return engine.Op{K: "v"}
 	case k < 96: // mass free: fragments whatever is held, also what an earlier defragmentation has moved
-		return engine.Op{K: "x", C: rapid.IntRange(10, 95).Draw(t, "pct"), S: rapid.Uint64().Draw(t, "seed")}
+		return engine.Op{K: "x", C: uni(t, "pct", 10, 95), S: rapid.Uint64().Draw(t, "seed")}
 	case conc:
 		return engine.Op{K: "y"}
 	default:
@@ -290,7 +308,7 @@ func genOp(t *rapid.T, tb *table, hot []int, conc bool) engine.Op {
 }
 
 func genOps(t *rapid.T, tb *table, hot []int, conc bool, lo, hi int) []engine.Op {
-	n := rapid.IntRange(lo, hi).Draw(t, "nops")
+	n := rapid.IntRange(lo, hi).Draw(t, "nops") // rapid's own generator: shrinks towards short lists
 	ops := make([]engine.Op, n)
 	for i := range ops {
 		ops[i] = genOp(t, tb, hot, conc)
@@ -302,10 +320,10 @@ func genOps(t *rapid.T, tb *table, hot []int, conc bool, lo, hi int) []engine.Op
 // so that the many-slot classes do not eat the whole budget)
 func genBulkClass(t *rapid.T, tb *table) int {
 	n := len(tb.shared)
-	if rapid.IntRange(0, 9).Draw(t, "anyclass") < 3 {
-		return rapid.IntRange(0, n-1).Draw(t, "bulkclass")
+	if uni(t, "anyclass", 0, 9) < 3 {
+		return uni(t, "bulkclass", 0, n-1)
 	}
-	return rapid.IntRange(n*2/5, n-1).Draw(t, "bulkclass")
+	return uni(t, "bulkclass", n*2/5, n-1)
 }
 
 // a bulk phase in one shared class: pages worth of allocations, pct percent of them freed.
@@ -318,12 +336,12 @@ func genBulk(t *rapid.T, tb *table, cls int, share int) engine.Op {
 	}
 	perPage := (1 << 20) / (b + engine.HdrLen)
 	var pages, pct int
-	if rapid.IntRange(0, 9).Draw(t, "intent") < 7 {
-		pages, pct = rapid.IntRange(16, 36).Draw(t, "pages"), rapid.IntRange(60, 95).Draw(t, "pct")
+	if uni(t, "intent", 0, 9) < 7 {
+		pages, pct = uni(t, "pages", 16, 36), uni(t, "pct", 60, 95)
 	} else { // arbitrary fragmentation level, mostly below the threshold
-		pages, pct = rapid.IntRange(1, 36).Draw(t, "pages"), rapid.IntRange(0, 100).Draw(t, "pct")
+		pages, pct = uni(t, "pages", 1, 36), uni(t, "pct", 0, 100)
 	}
-	n := pages*perPage + rapid.IntRange(-perPage/2, perPage/2).Draw(t, "slack")
+	n := pages*perPage + uni(t, "slack", -perPage/2, perPage/2)
 	n /= share
 	if n < 1 {
 		n = 1
@@ -332,7 +350,7 @@ func genBulk(t *rapid.T, tb *table, cls int, share int) engine.Op {
 	if d > 8 {
 		d = 8
 	}
-	return engine.Op{K: "b", A: b, B: n, C: pct, D: rapid.IntRange(0, d).Draw(t, "spread"), S: rapid.Uint64().Draw(t, "seed")}
+	return engine.Op{K: "b", A: b, B: n, C: pct, D: uni(t, "spread", 0, d), S: rapid.Uint64().Draw(t, "seed")}
 }
 
 func insertAt(l []engine.Op, pos int, e engine.Op) []engine.Op {
@@ -344,13 +362,13 @@ func insertAt(l []engine.Op, pos int, e engine.Op) []engine.Op {
 }
 
 func genSeq(t *rapid.T, tb *table) engine.Case {
-	c := engine.Case{Mode: "seq", Procs: rapid.SampledFrom([]int{1, 2, 4, 16}).Draw(t, "procs")}
-	nr := rapid.IntRange(1, 4).Draw(t, "rounds")
-	hi := rapid.SampledFrom([]int{40, 400, 1000, 1000}).Draw(t, "maxops")
+	c := engine.Case{Mode: "seq", Procs: []int{1, 2, 4, 16}[uni(t, "procs", 0, 3)]}
+	nr := uni(t, "rounds", 1, 4)
+	hi := []int{40, 400, 1200, 1200}[uni(t, "maxops", 0, 3)]
 	// at most two bulk phases per history (each is tens of MB)
 	bulkAt := map[int]bool{}
-	for i, nb := 0, rapid.SampledFrom([]int{0, 1, 1, 2}).Draw(t, "nbulk"); i < nb; i++ {
-		bulkAt[rapid.IntRange(0, nr-1).Draw(t, "bulkround")] = true
+	for i, nb := 0, []int{0, 1, 1, 2}[uni(t, "nbulk", 0, 3)]; i < nb; i++ {
+		bulkAt[uni(t, "bulkround", 0, nr-1)] = true
 	}
 	bulk := false
 	// hot sizes: a few random ones plus the classes of the bulk phases from that round on, so that the
@@ -367,12 +385,15 @@ func genSeq(t *rapid.T, tb *table) engine.Case {
 		}
 		ops := genOps(t, tb, hot, false, hi/4, hi)
 		if bulkAt[i] {
-			ops = insertAt(ops, rapid.IntRange(0, 1<<20).Draw(t, "bulkpos"), b)
+			ops = insertAt(ops, uni(t, "bulkpos", 0, 1<<20), b)
 			bulk = true
 		}
-		c.Rounds = append(c.Rounds, engine.Round{G: [][]engine.Op{ops}, Defrag: rapid.IntRange(0, 9).Draw(t, "defrag") < 8})
+		c.Rounds = append(c.Rounds, engine.Round{G: [][]engine.Op{ops}, Defrag: uni(t, "defrag", 0, 9) < 8})
 	}
-	c.VE = rapid.SampledFrom([]int{1, 4, 16, 64}).Draw(t, "ve")
+	c.VE = []int{1, 4, 16, 64}[uni(t, "ve", 0, 3)]
+	if hi > 400 && c.VE < 16 {
+		c.VE = 16
+	}
 	if bulk {
 		c.VE = 64
 	}
@@ -380,24 +401,42 @@ func genSeq(t *rapid.T, tb *table) engine.Case {
 }
 
 func genConc(t *rapid.T, tb *table) engine.Case {
-	c := engine.Case{Mode: "conc", Procs: rapid.SampledFrom([]int{1, 2, 3, 4, 8, 16, 32}).Draw(t, "procs"),
-		Race: rapid.Bool().Draw(t, "race")}
-	ng := rapid.SampledFrom([]int{1, 2, 2, 3, 4, 4, 5, 7, 8, 8, 11, 16, 16}).Draw(t, "goroutines")
-	nr := rapid.IntRange(1, 3).Draw(t, "rounds")
+	c := engine.Case{Mode: "conc", Procs: []int{1, 2, 3, 4, 8, 16, 32}[uni(t, "procs", 0, 6)], Race: uni(t, "race", 0, 1) == 1}
+	ng := []int{1, 2, 2, 3, 4, 4, 5, 7, 8, 8, 11, 16, 16}[uni(t, "goroutines", 0, 12)]
+	nr := uni(t, "rounds", 1, 3)
 	// a few hot sizes, so that the goroutines meet in the same classes
 	hot := make([]int, rapid.IntRange(1, 4).Draw(t, "nhot"))
 	for i := range hot {
 		hot[i] = genSize(t, tb, nil)
 	}
-	hi := rapid.SampledFrom([]int{40, 200, 500}).Draw(t, "maxops")
+	hi := []int{40, 200, 500}[uni(t, "maxops", 0, 2)]
+	// Two shapes of bulk phase.  "split": every goroutine mallocs and frees its share on its own - the
+	// goroutines run staggered, so later ones mostly reuse what earlier ones freed (contention and reuse,
+	// seldom enough free slots for a defragmentation).  "fill then fragment": round 0 only fills, round 1
+	// starts with a mass free in every goroutine and ends with the defragmentation.
+	ftf := uni(t, "fillthenfragment", 0, 9) < 5
+	if ftf && nr < 2 {
+		nr = 2
+	}
 	for i := 0; i < nr; i++ {
-		r := engine.Round{Defrag: rapid.IntRange(0, 9).Draw(t, "defrag") < 8}
-		bulk := rapid.IntRange(0, 9).Draw(t, "bulk") < 7
+		r := engine.Round{Defrag: uni(t, "defrag", 0, 9) < 8}
+		bulk := uni(t, "bulk", 0, 9) < 6
+		if ftf && i < 2 {
+			bulk = i == 0
+		}
 		cls := genBulkClass(t, tb)
 		for g := 0; g < ng; g++ {
 			ops := genOps(t, tb, hot, true, hi/4, hi)
 			if bulk { // every goroutine takes its share of a bulk phase in the same class
-				ops = insertAt(ops, rapid.IntRange(0, 1<<20).Draw(t, "bulkpos"), genBulk(t, tb, cls, ng))
+				b := genBulk(t, tb, cls, ng)
+				if ftf {
+					b.C = 0
+				}
+				ops = insertAt(ops, uni(t, "bulkpos", 0, 1<<20), b)
+			}
+			if ftf && i == 1 {
+				ops = insertAt(ops, 0, engine.Op{K: "x", C: uni(t, "pct", 60, 95), S: rapid.Uint64().Draw(t, "seed")})
+				r.Defrag = true
 			}
 			r.G = append(r.G, ops)
 		}
@@ -427,6 +466,15 @@ func judge(r *pbt.Run, c *engine.Case) {
 		s := o.res.Stats
 		fmt.Fprintf(os.Stderr, "C20DBG mode=%s race=%v ve=%d procs=%d ms=%d cpums=%d ops=%d mallocs=%d moved=%d fullv=%d maxbytes=%d g=%d\n", c.Mode, c.Race, c.VE, c.Procs,
 			time.Since(t0).Milliseconds(), o.cpu.Milliseconds(), s.Steps, s.Mallocs, s.Moved, s.FullVerifies, s.MaxLiveBytes, s.Goroutines)
+		for ri, rd := range c.Rounds {
+			for g, l := range rd.G {
+				for _, e := range l {
+					if e.K == "b" || e.K == "x" {
+						fmt.Fprintf(os.Stderr, "C20DBG    round %d defrag=%v g=%d %+v\n", ri, rd.Defrag, g, e)
+					}
+				}
+			}
+		}
 	}
 	if o.inconclusive != "" {
 		// not a verdict about the allocator: remembered, the test fails without a replay file (exit 2)
@@ -502,7 +550,7 @@ func failIfInconclusive(t *testing.T) {
 
 func TestSequential(t *testing.T) {
 	tb := classTable(t)
-	pbt.Check(t, pbt.Cfg{Name: "seq", Quick: 480, Thorough: 12000}, func(r *pbt.Run) {
+	pbt.Check(t, pbt.Cfg{Name: "seq", Quick: 560, Thorough: 16000}, func(r *pbt.Run) {
 		c := genSeq(r.T, tb)
 		r.Case(c)
 		judge(r, &c)
@@ -512,7 +560,7 @@ func TestSequential(t *testing.T) {
 
 func TestConcurrent(t *testing.T) {
 	tb := classTable(t)
-	pbt.Check(t, pbt.Cfg{Name: "conc", Quick: 240, Thorough: 6000}, func(r *pbt.Run) {
+	pbt.Check(t, pbt.Cfg{Name: "conc", Quick: 280, Thorough: 8000}, func(r *pbt.Run) {
 		c := genConc(r.T, tb)
 		r.Case(c)
 		judge(r, &c)
